@@ -141,7 +141,8 @@
 (* records, identical or fresh copies: a copy has the layout of its        *)
 (* original line) and choose any length for digests and names without      *)
 (* changing what the model expects; sizes of up to 25 digits (2^31, 2^63,  *)
-(* leading zeros) are shapes of the model.                                 *)
+(* leading zeros) and of 33, 40, 64, 65, 80, 81 characters (beyond every   *)
+(* documented width) are shapes of the model.                              *)
 (*                                                                         *)
 (* The single-line form (the only record of a field written on the header  *)
 (* line, "SHA1-Current: <hash> <size>", exposed as ONE mapping instead of  *)
@@ -149,9 +150,20 @@
 (* explicitly; it is modelled as form = "single" (exactly one record).     *)
 (* Its padding is not part of the statement: PdiffIndex does not pad it,   *)
 (* Release/apt-ftparchive pads it to 16; Release/dak + single-line is      *)
-(* UNSPECIFIED (MUnspecified; today: TypeError).  The width of a           *)
-(* Release/apt-ftparchive field holding a size of more than 16 characters  *)
-(* is unspecified as well (MWidthSpecified), the round trip is not.        *)
+(* UNSPECIFIED (MUnspecified; today: TypeError).                           *)
+(*                                                                         *)
+(* Sizes LONGER than the width.  The documented width is a MINIMUM width   *)
+(* of the column: "apt-ftparchive makes the field 16 characters long       *)
+(* regardless" (of the sizes present), tokens are never truncated (the     *)
+(* records must round-trip), so a size token of 17, 18, 40, 80 ...         *)
+(* characters in a Release/apt-ftparchive field is written in full after   *)
+(* the ONE separating blank -- pad = 1 + max(0, w - len), MLine -- and the *)
+(* other lines of the field are still padded to 16.  (Until round 7 this   *)
+(* case was left unspecified; the only other reading -- the column grows   *)
+(* to the longest size -- is what "dak" is for and contradicts             *)
+(* "regardless".)  With "dak" / PdiffIndex the width IS the longest size,  *)
+(* whatever it is (below, at and far beyond 16: 15, 16, 17, 40, 80, with   *)
+(* more than 64 blanks of padding for the short sizes next to it).         *)
 (*                                                                         *)
 (* Pure operators are prefixed M and free of variables (re-used by         *)
 (* TraceMultiValued.tla).                                                  *)
@@ -165,7 +177,9 @@
 (*   subsets  every class x EVERY subset of its structured fields          *)
 (*            (PdiffIndex: 2^14, in a TLC run of its own) x uniform shapes *)
 (*   records  one present field x every record list of <= 2 records with   *)
-(*            sizes of 1..18 characters                                    *)
+(*            sizes of 1..18 characters, and sizes that reach and exceed   *)
+(*            every documented width (ShapesWide: 15, 16, 17, 40, 64, 65,  *)
+(*            80, 81 next to short ones)                                   *)
 (*   pairs    <= 2 present fields with independent shapes (width is per    *)
 (*            field)                                                       *)
 (*   full4    the classes with 4 fields: every subset x independent shapes *)
@@ -271,9 +285,10 @@ MWidth(c, b, subs, e) ==
     ELSE IF c = "PdiffIndex" THEN (IF e.form = "single" THEN 0 ELSE Max(MSizeLens(subs, e.recs)))
     ELSE 0
 \* ... is promised by the statement only here:
+\* (also when a size is LONGER than the 16 of Release/apt-ftparchive: that token is written in full,
+\*  unpadded, the others are padded to 16 -- see MLine)
 MWidthSpecified(c, b, subs, e) ==
     /\ MHasWidth(c) /\ e.form = "multi"
-    /\ ~(c = "Release" /\ b = Apt /\ \E n \in MSizeLens(subs, e.recs) : n > 16)
 MUnspecified(c, b, p) == c = "Release" /\ b = Dak /\ \E f \in DOMAIN p : p[f].form = "single"
 
 \* does the width computation have to look at the records of the fields it iterates over?
@@ -725,12 +740,16 @@ WidthRule == (Dumped /\ Heavy /\ MHasWidth(cls)) =>
                  THEN W(r) = (IF L[r][sc].len > 16 THEN L[r][sc].len ELSE 16)
                  ELSE W(r) = longest
 \* ... hence right-aligned: the sizes of a field end in the same column (the digests of one
-\* field have the same length)
+\* field have the same length), except a size longer than the 16 of apt-ftparchive, which follows
+\* its separator directly
 RightAligned == (Dumped /\ Heavy /\ MHasWidth(cls)) =>
     \A f \in DOMAIN text :
        MWidthSpecified(cls, beh, Subs(f), para[f]) =>
-          \A r \in 1..Len(text[f].lines) :
-             MEndCol(text[f].lines[r], MSizeCol(Subs(f))) = MEndCol(text[f].lines[1], MSizeCol(Subs(f)))
+          LET sc == MSizeCol(Subs(f)) L == text[f].lines End(r) == MEndCol(L[r], sc) IN
+          \A r, q \in 1..Len(L) :
+             \* only a size LONGER than the column (Release/apt-ftparchive, > 16) sticks out, and it is not padded at all
+             /\ End(r) > End(q) => (L[r][sc].pad = 1 /\ L[r][sc].len > 16 /\ cls = "Release" /\ beh = Apt)
+             /\ End(r) = End(q) \/ L[r][sc].len > 16 \/ L[q][sc].len > 16
 \* separators are single blanks; classes without a documented width never pad (diagnostic in the binding)
 SingleBlanks == (Dumped /\ Heavy) =>
     \A f \in DOMAIN text : \A r \in 1..Len(text[f].lines) : \A i \in 1..Len(text[f].lines[r]) :
@@ -767,9 +786,16 @@ ShapesSubsets      == {Sh("multi", <<1>>), Sh("multi", <<18>>), Sh("multi", <<3,
 \* sizes beyond 18 digits: 2^31 and 2^32 have 10 digits, 2^63 and 10^18 have 19
 ShapesBig          == {Sh("multi", <<10>>), Sh("multi", <<19, 10>>), Sh("multi", <<10, 20>>), Sh("multi", <<25, 1>>),
                        Sh("multi", <<19, 19>>), ShDup(<<9, 9>>), ShDup(<<19, 19>>)}
-ShapesRecordsQuick == MultiShapes({1, 9, 16, 17, 18}, 2) \cup SingleShapes({1, 16, 18}) \cup ShapesBig
-ShapesRecords      == MultiShapes(1..18, 2) \cup SingleShapes(1..18) \cup ShapesBig
+\* sizes that reach and exceed every documented width (15 / 16 / 17 and far beyond: the padding of a
+\* short size next to a long one exceeds 64 blanks; a size alone in its field; the long one first / last)
+ShapesWide         == {Sh("multi", <<15>>), Sh("multi", <<15, 16>>), Sh("multi", <<17, 15>>), Sh("multi", <<40>>),
+                       Sh("multi", <<80, 3>>), Sh("multi", <<3, 80>>), Sh("multi", <<16, 40>>), Sh("multi", <<17, 80>>),
+                       Sh("multi", <<64, 17>>), Sh("multi", <<65, 1>>), Sh("multi", <<1, 81>>), Sh("multi", <<33, 32>>),
+                       ShDup(<<40, 40>>)}
+ShapesRecordsQuick == MultiShapes({1, 9, 16, 17, 18}, 2) \cup SingleShapes({1, 16, 18}) \cup ShapesBig \cup ShapesWide
+ShapesRecords      == MultiShapes(1..18, 2) \cup SingleShapes(1..18) \cup ShapesBig \cup ShapesWide
                          \cup MultiShapes({10, 19, 20, 25}, 2) \cup SingleShapes({19, 25})
+                         \cup MultiShapes({15, 17, 40, 64, 80}, 2) \cup SingleShapes({40})
 ShapesPairsQuick   == MultiShapes({1, 17}, 2) \cup SingleShapes({3})
 ShapesPairs        == MultiShapes({1, 16, 17}, 2) \cup SingleShapes({3, 17})
 ShapesHist         == {Sh("multi", <<2>>), Sh("multi", <<5, 2>>)}
@@ -793,7 +819,7 @@ ModesQuick ==
   { Mode("subsets4", SmallConfigs, ShapesSubsets,      TRUE,  4,  TRUE,  1),
     Mode("records",  AllConfigs,   ShapesRecordsQuick, FALSE, 1,  TRUE,  1),
     Mode("pairs",    PairConfigs,  ShapesPairsQuick,   FALSE, 2,  TRUE,  1),
-    HMode("hist",    HistConfigs,  ShapesHist,         FALSE, 1,  TRUE,  8, 2, {1, 7}, 4),
+    HMode("hist",    HistConfigs,  ShapesHist,         FALSE, 1,  TRUE,  8, 2, {1, 7, 40}, 4),
     HMode("histP",   PdiffConfig,  ShapesHist,         FALSE, 1,  TRUE,  7, 2, {1, 7}, 2),
     XMode("alias",   AliasConfigs, ShapesAlias,        FALSE, 1,  TRUE,  6, 2, {1, 7}, 2, {"setsize", "append", "reorder"}, {"parsed"}, {}),
     XMode("live",    LiveConfigs,  ShapesLive,         FALSE, 1,  TRUE,  7, 2, {7}, 1, LiveKinds, {"built"}, LiveOthers),
@@ -806,7 +832,7 @@ ModesThorough ==
     Mode("records",  AllConfigs,   ShapesRecords,      FALSE, 1,  TRUE,  1),
     Mode("pairs",    AllConfigs,   ShapesPairs,        FALSE, 2,  TRUE,  5),
     Mode("full4",    HistConfigs,  ShapesPairsQuick,   FALSE, 4,  TRUE,  4),
-    HMode("hist",    AllConfigs,   ShapesHist,         FALSE, 1,  TRUE,  6, 2, {1, 7, 17}, 4),
+    HMode("hist",    AllConfigs,   ShapesHist,         FALSE, 1,  TRUE,  6, 2, {1, 7, 17, 40}, 4),
     HMode("hist2",   AllConfigs,   ShapesHist,         FALSE, 2,  TRUE,  4, 1, {1, 7}, 4),
     XMode("alias",   AllConfigs,   ShapesAlias,        FALSE, 1,  TRUE,  7, 2, {1, 7}, 4, {"setsize", "append", "delete", "reorder"}, {"parsed", "built"}, {}),
     XMode("live",    LiveConfigs \cup {<<"Changes", "-">>}, ShapesLive, FALSE, 1, TRUE, 8, 2, {7}, 1, LiveKindsT, {"built", "parsed"}, LiveOthersT),
